@@ -336,6 +336,16 @@ func runPropertyEnum[C any](t *testing.T, prop string, enum []C, gen func(*rapid
 			// in-process re-execution of a sample of cases: the run must be a pure function of the case
 			if o.Digest != "" && (caseNo <= 3 || caseNo%97 == 0) {
 				o2 := safeRun(c)
+				if o2.Harness != "" || o2.Skip {
+					o2 = safeRun(c) // trouble of the harness itself during the re-execution (a child process starved by an overloaded machine): once more
+				}
+				if o2.Harness != "" {
+					st.HarnessErr = "re-execution of case " + fmt.Sprint(caseNo) + ": " + o2.Harness
+					return
+				}
+				if o2.Skip {
+					o2 = o // nothing to compare
+				}
 				// The race detector never reports a race that is not there, but an incidental happens-before
 				// edge (runtime caches warmed by the first execution) can hide one on re-execution: a differing
 				// race verdict over an identical execution (same digest) is not nondeterminism, and the run that
